@@ -240,6 +240,8 @@ class Interp:
         self.ctx = Ctx(prog, func.module, func.cls)
         self.ph_class = {}  # placeholder -> ClassInfo (Sub / Construct results)
         self.unused_calls = []
+        self.constructs = {}  # placeholder -> Construct term (objects built in this function)
+        self.self_attrs = None  # attr -> expression, when interpreting a method of an object constructed by the caller
 
     # -- helpers ---------------------------------------------------------------------------------
     def fresh(self):
@@ -256,7 +258,21 @@ class Interp:
         return False
 
     def ev(self, node):
-        return simplify(subst(node, self.env), self.ctx) if node is not None else None
+        if node is None:
+            return None
+        if self.self_attrs:
+            attrs = self.self_attrs
+            sn = self.func.self_name or "self"
+
+            class A(ast.NodeTransformer):
+                def visit_Attribute(self, n):
+                    if isinstance(n.value, ast.Name) and n.value.id == sn and n.attr in attrs and isinstance(n.ctx, ast.Load):
+                        return copy.deepcopy(attrs[n.attr])
+                    self.generic_visit(n)
+                    return n
+
+            node = A().visit(copy.deepcopy(node))
+        return simplify(subst(node, self.env), self.ctx)
 
     def err(self, node, why):
         raise AnalysisError(
@@ -342,6 +358,12 @@ class Interp:
         # instance sub-codec:  x._write(stream, ...) / x.bwrite(stream)
         if f.attr in ("_write", "bwrite") and self.is_stream(first):
             recv = self.ev(f.value)
+            if isinstance(recv, ast.Name) and recv.id in self.constructs and getattr(self, "_inline_depth", 0) < 2:
+                c = self.constructs[recv.id]
+                h = self.prog.lookup_method(c.cls, f.attr)
+                attrs = self.ctor_attrs(c)
+                if h is not None and attrs is not None:
+                    return ("inline", h, call, attrs)
             return Sub(node=call, cls=None, meth=f.attr, recv=recv, args=[self.ev(a) for a in args[1:]],
                        kwargs={a: self.ev(v) for a, v in kw.items()})
         if any(self.is_stream(a) for a in list(args) + list(kw.values())):
@@ -376,7 +398,7 @@ class Interp:
             def visit_Call(self, node):
                 t = interp.classify(node)
                 if isinstance(t, tuple) and t[0] == "inline":
-                    rv = interp.inline(t[1], t[2], out)
+                    rv = interp.inline(t[1], t[2], out, *t[3:])
                     return rv if rv is not None else C(None)
                 if t is not None:
                     if interp.side == "r" or isinstance(t, (Raw,)):
@@ -434,13 +456,35 @@ class Interp:
             return Rep(node=node, kind="rows", over=it, vars=vars_, body=body)
         return Rep(node=node, kind="coll", over=it, vars=vars_, body=body)
 
-    def inline(self, h: FuncInfo, call: ast.Call, out):
-        """Interpret helper h (a method of the same class) in place of the call; returns the helper's returned expression."""
+    def ctor_attrs(self, c):
+        """attribute -> value expression of an object built by `Cls(args)` in this function (from the constructor summary)"""
+        from . import facts
+        try:
+            summ = facts.init_summary(self.prog, c.cls)
+        except AnalysisError:
+            return None
+        amap = {}
+        for p_, a in zip(summ.params, c.args):
+            amap[p_] = a
+        for kname, a in c.kwargs.items():
+            amap[kname] = a
+        for p_ in summ.params:
+            if p_ not in amap:
+                if p_ in summ.defaults:
+                    amap[p_] = summ.defaults[p_]
+                else:
+                    return None
+        return {a: simplify(subst(e, amap), self.ctx) for a, e in summ.attrs.items()}
+
+    def inline(self, h: FuncInfo, call: ast.Call, out, self_attrs=None):
+        """Interpret helper h (a method of the same class, or a codec method of an object built here) in place of the call;
+        returns the helper's returned expression."""
         params = h.params
         args = list(call.args)
         sub = Interp(self.prog, h, params[0] if params else self.stream, self.side)
         sub._inline_depth = getattr(self, "_inline_depth", 0) + 1
         sub.ph_class = self.ph_class
+        sub.self_attrs = self_attrs
         env = {}
         # the stream parameter is renamed to the caller's stream expression by making the sub-interpreter use its own name
         for p_, a in zip(params[1:], args[1:]):
@@ -485,7 +529,7 @@ class Interp:
             if isinstance(v, ast.Call):
                 t = self.classify(v)
                 if isinstance(t, tuple) and t[0] == "inline":
-                    self.inline(t[1], t[2], out)
+                    self.inline(t[1], t[2], out, *t[3:])
                     return
                 if t is not None:
                     if self.side == "r" or t.__class__ is Raw:
@@ -637,6 +681,7 @@ class Interp:
                 kwargs[kw.arg] = self.extract(kw.value, out) if self.mentions_stream(kw.value) else self.ev(kw.value)
         c = Construct(node=st, var=var, cls=k, args=args, kwargs=kwargs, ph=self.fresh())
         self.ph_class[c.ph] = k
+        self.constructs[c.ph] = c
         out.append(c)
         return c
 
